@@ -3,6 +3,7 @@ import CprocVerif.Lemmas.InitDec
 import CprocVerif.Lemmas.InitParse2
 import CprocVerif.Lemmas.InitRefNoSw
 import CprocVerif.Lemmas.InitRefTopU
+import CprocVerif.Lemmas.InitGeoTop
 
 /-!
 # C07 — initialised objects contain exactly the specified initial image
@@ -558,6 +559,83 @@ theorem parseinit_refines_ref_counterexample : ¬ parseinit_refines_ref_full := 
       have := h exU exUI st r hm hr (by decide +kernel) (by decide +kernel)
       apply key.1
       unfold imgM imgR
+      rw [hm, hr]
+      simp only []
+      rw [this]
+
+/-! ## (e) end to end: the emitted bytes are the image C11 prescribes
+
+`emitdata_refines_ref` assumed the hypotheses of `emitdata_image_ev` for the model's log.  They
+are consequences of `parseinit` itself (`Lemmas/InitGeo*.lean`): every live slot of `obj[]` is a
+place of the object's tree of sub-objects, so every logged initialiser sits at such a place and
+every `initclear` clears one; under a C layout two places are bit-disjoint or nested, and a
+nested later initialiser is an element of an earlier string literal — exactly the laminarity
+`initadd`'s sorted list and `emitdata`'s loops need. -/
+
+/-- **laminarity of `parseinit`** (objects of known size).  Hypotheses, all decidable on
+`(t, i)`: `tyWf t`; `layOK t` (a C layout: members inside their struct/union, struct members in
+increasing bit order without overlap, bit-fields inside a storage unit, LP64 sizes of the basic
+types); unions and designators not combined (`noUnion t || noDesig i`); string literals have the
+width of their character type (`strsOK i`); every stored value is a constant of the member's kind
+(`constVals`).  Then the log satisfies the hypotheses of `emitdata_image_ev`. -/
+theorem parseinit_log_laminar {t : Ty} {i : Ini} {st : St} (hm : parseinit t false i = .ok st)
+    (hwf : tyWf t = true) (hlay : layOK t = true) (hmode : (noUnion t || noDesig i) = true)
+    (hso : strsOK i = true) (hcv : constVals t false i = true) :
+    EvsOK [] st.log ∧ ∀ x ∈ adds st.log, Wf st.top x :=
+  parseinit_laminar hm hwf hlay hmode hso hcv
+
+theorem imgClass_parts {t : Ty} {inc : Bool} {i : Ini} (hc : imgClass t inc i = true) :
+    refClass t inc i = true ∧ inc = false ∧ layOK t = true ∧ (noUnion t || noDesig i) = true ∧
+      strsOK i = true ∧ constVals t inc i = true := by
+  simp only [imgClass, Bool.and_eq_true, Bool.not_eq_true'] at hc
+  exact ⟨hc.1.1.1.1.1, hc.1.1.1.1.2, hc.1.1.1.2, hc.1.1.2, hc.1.2, hc.2⟩
+
+/-- **`static_image_correct`** — the chain `parseinit` → `initadd`/`initclear` → `emitdata` against
+C11 6.7.9, with hypotheses on `(t, inc, i)` only: for every pair in the decidable class `imgClass`
+(`refClass` and the hypotheses of `parseinit_log_laminar`), when `parseinit` succeeds and the
+reference accepts the initialiser, `emitdata` succeeds on the list that `initadd`/`initclear`
+built (no `assert` fails, no "not a constant expression") and the bytes of the emitted data items
+are, byte for byte, the image the reference reading of C11 6.7.9 prescribes. -/
+theorem static_image_correct {t : Ty} {inc : Bool} {i : Ini} {st : St} {r : InitRef.Result}
+    (hm : parseinit t inc i = .ok st) (hr : InitRef.ref t inc i = .ok r) (hc : imgClass t inc i = true) :
+    (emitdata st.top (st.log.foldl applyEv [])).isSome ∧
+      bytes (emitItems st.top (st.log.foldl applyEv [])) = image r.size r.writes := by
+  obtain ⟨hrc, hinc, hlay, hmode, hso, hcv⟩ := imgClass_parts hc
+  subst hinc
+  have hwf : tyWf t = true := by
+    simp only [refClass, Bool.and_eq_true] at hrc
+    simpa [tyWfFor] using hrc.1.1
+  obtain ⟨hok, hw⟩ := parseinit_laminar hm hwf hlay hmode hso hcv
+  have h1 := emitdata_image_ev hok hw
+  exact ⟨h1.1, by rw [h1.2]; exact (parseinit_refines_ref_class hrc hm hr).2⟩
+
+-- the non-vacuity examples above are in the class
+example : imgClass exT false exI = true ∧ imgClass exT false exD = true := by decide +kernel
+
+/-- Without `constVals` the statement is false: `int x = f();` (not a constant expression) is
+accepted by `parseinit` and by the reference, `emitdata` reports the error and emits nothing. -/
+def static_image_correct_full : Prop :=
+  ∀ (t : Ty) (i : Ini) (st : St) (r : InitRef.Result), parseinit t false i = .ok st → InitRef.ref t false i = .ok r →
+    refClass t false i = true → layOK t = true → bytes (emitItems st.top (st.log.foldl applyEv [])) = image r.size r.writes
+
+def bytesM (t : Ty) (i : Ini) : Option (List Cell) :=
+  match parseinit t false i with
+  | .ok st => some (bytes (emitItems st.top (st.log.foldl applyEv [])))
+  | .error _ => none
+
+theorem static_image_correct_counterexample : ¬ static_image_correct_full := by
+  intro h
+  have key : bytesM tInt (.expr .nonconst) ≠ imgR tInt (.expr .nonconst) ∧ isOk (parseinit tInt false (.expr .nonconst)) = true ∧
+      isOk (InitRef.ref tInt false (.expr .nonconst)) = true := by decide +kernel
+  cases hm : parseinit tInt false (.expr .nonconst) with
+  | error e => rw [hm] at key; simp [isOk] at key
+  | ok st =>
+    cases hr : InitRef.ref tInt false (.expr .nonconst) with
+    | error e => rw [hr] at key; simp [isOk] at key
+    | ok r =>
+      have := h tInt (.expr .nonconst) st r hm hr (by decide +kernel) (by decide +kernel)
+      apply key.1
+      unfold bytesM imgR
       rw [hm, hr]
       simp only []
       rw [this]
